@@ -1306,7 +1306,7 @@ def tail_clauses(ctx: Ctx, rep: RuleReport, rule: str) -> None:
 
             for i in [x for x in walk_own(fi.node) if isinstance(x, ast.If)]:
                 emits = any((isinstance(c, ast.Call) and isinstance(c.func, ast.Attribute) and c.func.attr in ("append", "extend", "write") and c.args and is_tail(c.args[0])) or
-                            (isinstance(c, ast.AugAssign) and is_tail(c.value)) for st in i.body for c in ast.walk(st))
+                            (isinstance(c, ast.AugAssign) and is_tail(c.value)) for st in i.body if not isinstance(st, (ast.If, ast.For, ast.While, ast.Try, ast.With)) for c in ast.walk(st))
                 if not emits:
                     continue
                 n += 1
